@@ -359,9 +359,10 @@ class History:
 
     def m_delete_output(self):
         c = self.existing_outputs(("shell", "mkdir", "symlink"))
+        special = self.existing_outputs(("mkdir", "symlink"))
         if not c:
             return None
-        o = self.rng.choice(c)
+        o = self.rng.choice(special) if special and self.rng.random() < 0.3 else self.rng.choice(c)
         self.remove(o)
         self.bump_tamper(o)
         return o
@@ -377,9 +378,10 @@ class History:
 
     def m_garbage_output(self):
         c = self.existing_outputs(("shell", "symlink"))
+        links = self.existing_outputs(("symlink",))
         if not c:
             return None
-        o = self.rng.choice(c)
+        o = self.rng.choice(links) if links and self.rng.random() < 0.4 else self.rng.choice(c)
         p = self.path(o)
         if os.path.islink(p):
             os.unlink(p)
@@ -548,12 +550,15 @@ class History:
 
     def m_rewire_input(self):
         def f(Q):
-            c = [n for n, d in Q.cmds.items() if d["tool"] == "shell" and d["inputs"]]
+            c = [n for n, d in Q.cmds.items() if d["tool"] in ("shell", "phony") and d["inputs"]]
             pool = self.shell_input_pool()
             if not c or not pool:
                 return None
             n = self.rng.choice(c)
             d = Q.cmds[n]
+            if d["tool"] == "phony":
+                # any produced node may feed a phony command (links included): same number of inputs, another name
+                pool = [x for x in Q.nodes() if x != "<all>" and (Q.producers(x) or x in pool)]
             new = self.rng.choice(pool)
             if new in d["inputs"] or new in d["outputs"]:
                 return None
